@@ -25,14 +25,16 @@ var verifC12Src = []string{
 	"select id from t where exists (select 1 from t as z where z.k = t.k and z.id < t.id)",
 }
 var verifC12Queries []parser.SelectQuery
-var verifC12Join parser.SelectQuery
+var verifC12Join [6]parser.SelectQuery
 var verifC12Big [][]value.Primary
 
 func VerifC12Setup() {
 	for _, s := range verifC12Src {
 		verifC12Queries = append(verifC12Queries, verifParseSelect(s))
 	}
-	verifC12Join = verifParseSelect("select l.id, r.id2 from l inner join r on l.k = r.k")
+	for i, j := range []string{"inner join r on l.k = r.k", "left join r on l.k = r.k", "right join r on l.k = r.k", "full join r on l.k = r.k", "full join r using (k)", "natural left join r"} {
+		verifC12Join[i] = verifParseSelect("select l.id, r.id2 from l " + j)
+	}
 }
 
 func verifRowsOf(v *View) [][]value.Primary {
@@ -105,6 +107,9 @@ func VerifC12ParallelJoin() {
 	for c := range has {
 		has[c] = verifBool("third-has-partners")
 	}
+	// INNER, LEFT, RIGHT, FULL (ON and USING), NATURAL LEFT: the outer joins also combine what the workers
+	// found out about unmatched rows
+	kind := verifChoice("join", len(verifC12Join))
 	run := func(cpu int) ([][]value.Primary, error) {
 		tx := verifNewTx()
 		tx.Flags.CPU = cpu
@@ -123,7 +128,7 @@ func VerifC12ParallelJoin() {
 		}
 		verifTempTable(scope, "l", []string{"id", "k"}, l)
 		verifTempTable(scope, "r", []string{"id2", "k"}, r)
-		view, err := Select(verifCtx(), scope, verifC12Join)
+		view, err := Select(verifCtx(), scope, verifC12Join[kind])
 		if err != nil {
 			return nil, err
 		}
@@ -132,13 +137,27 @@ func VerifC12ParallelJoin() {
 	want, err1 := run(1)
 	got, err2 := run(3)
 	verifAssert("both runs succeed", err1 == nil && err2 == nil)
-	exp := 0
+	exp, any := 0, false
 	for c := range has {
 		if has[c] {
 			exp += 10
+			any = true
 		}
 	}
-	verifAssert("--cpu 1 returns every matching pair", len(want) == exp)
+	switch kind {
+	case 1, 5:
+		exp = 30 // every left row once: with its one partner or padded
+	case 2:
+		if !any {
+			exp = 10
+		}
+	case 3, 4:
+		exp = 30
+		if !any {
+			exp = 40
+		}
+	}
+	verifAssert("--cpu 1 returns every matching pair and every padded row", len(want) == exp)
 	verifAssert("same number of rows for --cpu 1 and --cpu 3", len(want) == len(got))
 	for r := 0; r < len(want) && r < len(got); r++ {
 		verifAssert("same pair at the same position", verifSamePrimary(want[r][0], got[r][0]) && verifSamePrimary(want[r][1], got[r][1]))
